@@ -119,7 +119,7 @@ def run_sharded(pid, cases, tier, seed, jobs, budget_s):
     return results, crashed
 
 
-def rerun_serial(pid, cases, tier, seed, per_case_s=120):
+def rerun_serial(pid, cases, tier, seed, per_case_s=75):
     """Re-run the given cases one process each (after crash/watchdog)"""
 
     results = {}
@@ -205,7 +205,7 @@ def main(argv=None):
         if r.get('verdict') == 'inconclusive' and r.get('retry', True):
             redo.append(indexed[i])
     if redo:
-        limit = getattr(mod, 'MAX_REDO', 40)
+        limit = getattr(mod, 'MAX_REDO', 8)
         rr = rerun_serial(pid, redo[:limit], tier, args.seed)
         results.update(rr)
         for c in redo[limit:]:
